@@ -232,7 +232,7 @@ class SymNumpy:
                 c = better(flat[k], flat[j], j < k)
                 allc = symx.L.And(allc, c)
             if bool(allc):
-                return k
+                return _np.intp(k)
         raise symx.Infeasible()
 
     @classmethod
